@@ -8,17 +8,25 @@ import RedisVerif.Driver.Crc32
 Model: `RedisVerif.Wal` (M3, `Model/Wal.lean`): `decode`/`Entry.encode` = `WalEntry::{decode,
 encode}`, `fileEntries` = `WalReader::open` + `entries`, `recoverAll` =
 `WalRotator::recover_all_entries`, `truncateBefore` = `WalRotator::truncate_before`.
-The checksum function is a parameter `crc` of every definition and theorem; the concrete
-examples instantiate it with the executable CRC-32 of `Driver/Crc32.lean`.
+The checksum function is a parameter `crc`; the on-disk format is a parameter `fmt`:
+`.v2` is the CURRENT code (entry checksum over `data_length | timestamp | data`, an empty entry
+is rejected, version byte 2 — after the `fix:` commit), `.v1` the format before it.
 
-Proved at full strength: `decode_encode`, `entries_of_prefix` (+ `entries_intact`),
-`corruption_stops` (hypothesis `CrcDetects`, decidable), `files_independent`, `truncate_safe`.
-`C10_only_appended` (every entry recovered from a damaged image was appended) is FALSE of the
-code: the entry checksum covers the payload only, so a changed timestamp byte passes
-(`timestamp_flip_counterexample`), and sixteen zero bytes are a valid empty entry whenever
-`crc [] = 0`, which CRC-32 satisfies (`zero_fill_counterexample`).  Proved instead:
-`only_appended_partial` (truncation, or an intact prefix followed by bytes whose first entry the
-CRC rejects).
+Proved for BOTH formats: `decode_encode`, `entries_intact`, `entries_of_prefix`,
+`corruption_stops` (hypothesis `CrcDetects`, decidable), `files_independent`, `truncate_safe`,
+`only_appended_partial`.
+
+Proved for the current format `.v2`: `only_appended_v2` — what recovery returns from a damaged
+image was appended, for every truncation, every zero-filled tail after a cut at an entry
+boundary (unconditionally: `no_phantom_zero_entry`), and every same-length corruption confined
+to one entry, WHICHEVER field was hit (length, timestamp, checksum, payload), under
+`CrcDetects`; `timestamp_corruption_stops_v2` (a changed stamp now fails the checksum);
+`recover_after_survives_zero_fill` (`recover_entries_after` no longer fails on a zero-filled
+tail).
+
+About the old format `.v1` (kept as theorems about the same functions; the defects were
+repaired): `timestamp_flip_counterexample`, `zero_fill_counterexample`,
+`zero_fill_fails_recover_after`.
 -/
 namespace RedisVerif
 namespace C10
@@ -28,99 +36,127 @@ open Wal
 /-! ## round trip -/
 
 /-- `decode (encode e ++ rest) = some (e, |encode e|)` for every entry that fits the field
-    widths and carries the checksum of its payload -/
-theorem decode_encode (crc : Bytes → Nat) (e : Entry) (rest : Bytes)
-    (hf : e.Fits) (hv : e.Valid crc) :
-    decode crc (e.encode ++ rest) = some (e, e.size) ∧ e.size = e.encode.length :=
-  ⟨Wal.decode_encode crc e rest hf hv, by rw [Entry.size, encode_length]⟩
+    widths, carries the checksum of what the format covers and (v2) is not empty -/
+theorem decode_encode (fmt : Format) (crc : Bytes → Nat) (e : Entry) (rest : Bytes)
+    (hg : e.Good fmt crc) :
+    decode fmt crc (e.encode ++ rest) = some (e, e.size) ∧ e.size = e.encode.length :=
+  ⟨Wal.decode_encode fmt crc e rest hg, by rw [Entry.size, encode_length]⟩
 
-example : (Entry.mk' Driver.crc32 [1, 2, 255] 7).Fits ∧ (Entry.mk' Driver.crc32 [1, 2, 255] 7).Valid Driver.crc32 := by
-  decide
+example : (Entry.mk' .v2 Driver.crc32 [1, 2, 255] 7).Good .v2 Driver.crc32 := by decide +kernel
+example : (Entry.mk' .v1 Driver.crc32 [] 7).Good .v1 Driver.crc32 := by decide +kernel
 
 /-! ## torn files -/
 
 /-- the whole file reads back exactly what was appended, in append order -/
-theorem entries_intact (crc : Bytes → Nat) (seq : Nat) (es : List Entry)
-    (hs : seq < 2 ^ 64) (hok : AllOk crc es) : fileEntries crc (fileImage seq es) = es :=
-  fileEntries_fileImage crc seq es hs hok
+theorem entries_intact (fmt : Format) (crc : Bytes → Nat) (seq : Nat) (es : List Entry)
+    (hs : seq < 2 ^ 64) (hok : AllOk fmt crc es) : fileEntries fmt crc (fileImage fmt seq es) = es :=
+  fileEntries_fileImage fmt crc seq es hs hok
 
 /-- EVERY prefix of a well-formed file image (torn file header, torn entry header, torn
     payload, cut at an entry boundary) reads as a prefix of the appended entries — in order,
     bit-identical, nothing else.  (The model has no crash outcome here because the Rust code
     has no reachable panic: every index is guarded by a length test; the harness checks
     that with `catch_unwind` on every truncation length.) -/
-theorem entries_of_prefix (crc : Bytes → Nat) (seq : Nat) (es : List Entry)
-    (hs : seq < 2 ^ 64) (hok : AllOk crc es) (n : Nat) :
-    ∃ k, fileEntries crc ((fileImage seq es).take n) = es.take k :=
-  fileEntries_take crc seq es hs hok n
+theorem entries_of_prefix (fmt : Format) (crc : Bytes → Nat) (seq : Nat) (es : List Entry)
+    (hs : seq < 2 ^ 64) (hok : AllOk fmt crc es) (n : Nat) :
+    ∃ k, fileEntries fmt crc ((fileImage fmt seq es).take n) = es.take k :=
+  fileEntries_take fmt crc seq es hs hok n
 
-example : AllOk Driver.crc32 [Entry.mk' Driver.crc32 [1] 9, Entry.mk' Driver.crc32 [] 3] := by decide
+example : AllOk .v2 Driver.crc32 [Entry.mk' .v2 Driver.crc32 [1] 9, Entry.mk' .v2 Driver.crc32 [0] 3] := by
+  decide +kernel
 
 /-! ## corruption -/
 
 /-- the checksum catches the first damaged entry: if the declared payload of `bad` is
-    present at all, its CRC differs from the stored one (decidable) -/
-def CrcDetects (crc : Bytes → Nat) (bad : Bytes) : Prop :=
-  overhead + leVal (bad.take 4) ≤ bad.length →
-    crc ((bad.drop overhead).take (leVal (bad.take 4))) ≠ leVal ((bad.drop 12).take 4)
+    present at all (and, v2, the declared length is not 0 — such an entry is rejected anyway),
+    the checksum of the covered bytes differs from the stored one (decidable) -/
+def CrcDetects (fmt : Format) (crc : Bytes → Nat) (bad : Bytes) : Prop :=
+  overhead + leVal (bad.take 4) ≤ bad.length → ¬ (fmt = .v2 ∧ leVal (bad.take 4) = 0) →
+    crc (covered fmt (leVal (bad.take 4)) (leVal ((bad.drop 4).take 8))
+        ((bad.drop overhead).take (leVal (bad.take 4)))) ≠ leVal ((bad.drop 12).take 4)
 
-instance (crc : Bytes → Nat) (bad : Bytes) : Decidable (CrcDetects crc bad) := by
+instance (fmt : Format) (crc : Bytes → Nat) (bad : Bytes) : Decidable (CrcDetects fmt crc bad) := by
   unfold CrcDetects; infer_instance
 
-theorem decode_none_of_detects (crc : Bytes → Nat) (bad : Bytes) (h : CrcDetects crc bad) :
-    decode crc bad = none := by
+theorem decode_none_of_detects (fmt : Format) (crc : Bytes → Nat) (bad : Bytes)
+    (h : CrcDetects fmt crc bad) : decode fmt crc bad = none := by
   unfold decode
   split
   · rfl
   · simp only
     split
     · rfl
-    · rw [if_neg (h (by omega))]
+    · split
+      · rfl
+      · rename_i hz hl
+        rw [if_neg (h (by omega) hz)]
 
 /-- recovery of a file ends at the last intact entry when the first damaged one is caught:
     whatever follows (`bad` includes everything up to the end of the file) is not yielded -/
-theorem corruption_stops (crc : Bytes → Nat) (seq : Nat) (es : List Entry) (bad : Bytes)
-    (hs : seq < 2 ^ 64) (hok : AllOk crc es) (hd : CrcDetects crc bad) :
-    fileEntries crc (fileImage seq es ++ bad) = es := by
+theorem corruption_stops (fmt : Format) (crc : Bytes → Nat) (seq : Nat) (es : List Entry)
+    (bad : Bytes) (hs : seq < 2 ^ 64) (hok : AllOk fmt crc es) (hd : CrcDetects fmt crc bad) :
+    fileEntries fmt crc (fileImage fmt seq es ++ bad) = es := by
   unfold fileImage
-  rw [List.append_assoc, fileEntries_image crc seq _ hs, entries_encs_append crc es bad hok,
-    entries_of_decode_none crc bad (decode_none_of_detects crc bad hd), List.append_nil]
+  rw [List.append_assoc, fileEntries_image fmt crc seq _ hs, entries_encs_append fmt crc es bad hok,
+    entries_of_decode_none fmt crc bad (decode_none_of_detects fmt crc bad hd), List.append_nil]
 
-/-- instance: the payload and/or the stored checksum of an entry were changed (same length)
-    and the CRC notices — everything from that entry on is dropped, including later intact
-    entries of the same file -/
-theorem corruption_stops_payload (crc : Bytes → Nat) (seq : Nat) (es : List Entry)
+/-- instance: payload, stamp and/or stored checksum of an entry were changed (length field
+    consistent) and the checksum notices — everything from that entry on is dropped, including
+    later intact entries of the same file -/
+theorem corruption_stops_payload (fmt : Format) (crc : Bytes → Nat) (seq : Nat) (es : List Entry)
     (d' : Bytes) (ts c' : Nat) (rest : Bytes)
-    (hs : seq < 2 ^ 64) (hok : AllOk crc es) (hf : Entry.Fits ⟨d', ts, c'⟩) (hne : crc d' ≠ c') :
-    fileEntries crc (fileImage seq es ++ ((Entry.mk d' ts c').encode ++ rest)) = es := by
-  apply corruption_stops crc seq es _ hs hok
-  intro _
+    (hs : seq < 2 ^ 64) (hok : AllOk fmt crc es) (hf : Entry.Fits ⟨d', ts, c'⟩)
+    (hne : crc (covered fmt d'.length ts d') ≠ c') :
+    fileEntries fmt crc (fileImage fmt seq es ++ ((Entry.mk d' ts c').encode ++ rest)) = es := by
+  apply corruption_stops fmt crc seq es _ hs hok
+  intro _ _
   obtain ⟨hl, ht, hc⟩ := hf
   have heq : (Entry.mk d' ts c').encode ++ rest
       = le 4 d'.length ++ (le 8 ts ++ (le 4 c' ++ (d' ++ rest))) := by simp [Entry.encode]
-  obtain ⟨f1, _, f3, f4, _⟩ := hdr_fields d'.length ts c' (d' ++ rest)
-  rw [heq, f1, f3, overhead, f4, leVal_le 4 _ (by simpa using hl), leVal_le 4 _ (by simpa using hc),
-    List.take_left' rfl]
+  obtain ⟨f1, f2, f3, f4, _⟩ := hdr_fields d'.length ts c' (d' ++ rest)
+  rw [heq, f1, f2, f3, overhead, f4, leVal_le 4 _ (by simpa using hl), leVal_le 4 _ (by simpa using hc),
+    leVal_le 8 _ (by simpa using ht), List.take_left' rfl]
   exact hne
 
--- a flipped payload bit is caught by CRC-32 (non-vacuity of `CrcDetects`)
-example : CrcDetects Driver.crc32 ((Entry.mk [1, 2, 2] 7 (Driver.crc32 [1, 2, 3])).encode) := by decide
+-- a flipped payload bit is caught by CRC-32 (non-vacuity of `CrcDetects`), both formats
+example : CrcDetects .v1 Driver.crc32 ((Entry.mk [1, 2, 2] 7 (Driver.crc32 [1, 2, 3])).encode) := by
+  decide +kernel
+example : CrcDetects .v2 Driver.crc32
+    ((Entry.mk [1, 2, 2] 7 (Entry.mk' .v2 Driver.crc32 [1, 2, 3] 7).crc).encode) := by decide +kernel
+
+/-- CURRENT format: the stamp is covered.  An entry whose stamp bytes were changed (`ts'`
+    instead of `e.ts`, everything else as written) ends recovery of its file as soon as the
+    checksum tells the two covered strings apart -/
+theorem timestamp_corruption_stops_v2 (crc : Bytes → Nat) (seq : Nat) (es : List Entry)
+    (e : Entry) (ts' : Nat) (rest : Bytes) (hs : seq < 2 ^ 64) (hok : AllOk .v2 crc es)
+    (he : e.Good .v2 crc) (ht : ts' < 2 ^ 64)
+    (hne : crc (covered .v2 e.data.length ts' e.data) ≠ crc (covered .v2 e.data.length e.ts e.data)) :
+    fileEntries .v2 crc (fileImage .v2 seq es ++ ((Entry.mk e.data ts' e.crc).encode ++ rest)) = es := by
+  apply corruption_stops_payload .v2 crc seq es e.data ts' e.crc rest hs hok ⟨he.1.1, ht, he.1.2.2⟩
+  rw [← he.2.1] at *
+  exact hne
+
+-- CRC-32 tells stamp 5 from stamp 261 (the flipped bit of DESIGN.md §6.1)
+example : Driver.crc32 (covered .v2 1 261 [7]) ≠ Driver.crc32 (covered .v2 1 5 [7]) := by decide +kernel
 
 /-! ## files are independent -/
 
 /-- recovery is the concatenation, in sequence order, of per-file results: whatever the
     bytes `f'` of one file are (unreadable, short, corrupt), the entries of all files before
     and after it are returned unchanged and in place -/
-theorem files_independent (crc : Bytes → Nat) (a b : Image) (s : Nat) (f' : Bytes) :
-    recoverAll crc (a ++ (s, f') :: b) = recoverAll crc a ++ fileEntries crc f' ++ recoverAll crc b := by
+theorem files_independent (fmt : Format) (crc : Bytes → Nat) (a b : Image) (s : Nat) (f' : Bytes) :
+    recoverAll fmt crc (a ++ (s, f') :: b)
+      = recoverAll fmt crc a ++ fileEntries fmt crc f' ++ recoverAll fmt crc b := by
   rw [recoverAll_append, recoverAll_cons, List.append_assoc]
 
 /-- an unreadable file (too short, wrong magic, wrong version) contributes nothing -/
-theorem unreadable_contributes_nothing (crc : Bytes → Nat) (f' : Bytes) (h : openFile f' = none) :
-    fileEntries crc f' = [] := by
+theorem unreadable_contributes_nothing (fmt : Format) (crc : Bytes → Nat) (f' : Bytes)
+    (h : openFile fmt f' = none) : fileEntries fmt crc f' = [] := by
   unfold fileEntries readFile; rw [h]
 
-example : openFile [82, 87, 65] = none := by decide
+example : openFile .v2 [82, 87, 65] = none := by decide
+-- a file of the old format is not read by the current code (version byte)
+example : openFile .v2 (header .v1 1) = none := by decide
 
 /-! ## only appended entries come back -/
 
@@ -132,79 +168,152 @@ def Damaged (orig img : Bytes) : Prop :=
 
 /-- FULL-STRENGTH statement: whatever recovery returns from a damaged image of a file was
     appended to that file, bit-identical in every field -/
-def C10_only_appended (crc : Bytes → Nat) : Prop :=
-  ∀ (seq : Nat) (es : List Entry), seq < 2 ^ 64 → AllOk crc es →
-    ∀ img, Damaged (fileImage seq es) img → ∀ e ∈ fileEntries crc img, e ∈ es
+def C10_only_appended (fmt : Format) (crc : Bytes → Nat) : Prop :=
+  ∀ (seq : Nat) (es : List Entry), seq < 2 ^ 64 → AllOk fmt crc es →
+    ∀ img, Damaged (fileImage fmt seq es) img → ∀ e ∈ fileEntries fmt crc img, e ∈ es
 
-/-- proved form: (1) every truncation, (2) an intact prefix followed by arbitrary bytes whose
+/-- both formats: (1) every truncation, (2) an intact prefix followed by arbitrary bytes whose
     first entry the checksum rejects -/
-theorem only_appended_partial (crc : Bytes → Nat) (seq : Nat) (es : List Entry)
-    (hs : seq < 2 ^ 64) (hok : AllOk crc es) :
-    (∀ n, ∀ e ∈ fileEntries crc ((fileImage seq es).take n), e ∈ es) ∧
-    (∀ k bad, CrcDetects crc bad →
-      ∀ e ∈ fileEntries crc (fileImage seq (es.take k) ++ bad), e ∈ es) := by
+theorem only_appended_partial (fmt : Format) (crc : Bytes → Nat) (seq : Nat) (es : List Entry)
+    (hs : seq < 2 ^ 64) (hok : AllOk fmt crc es) :
+    (∀ n, ∀ e ∈ fileEntries fmt crc ((fileImage fmt seq es).take n), e ∈ es) ∧
+    (∀ k bad, CrcDetects fmt crc bad →
+      ∀ e ∈ fileEntries fmt crc (fileImage fmt seq (es.take k) ++ bad), e ∈ es) := by
   constructor
   · intro n e he
-    obtain ⟨k, hk⟩ := entries_of_prefix crc seq es hs hok n
+    obtain ⟨k, hk⟩ := entries_of_prefix fmt crc seq es hs hok n
     rw [hk] at he
     exact List.mem_of_mem_take he
   · intro k bad hd e he
-    rw [corruption_stops crc seq (es.take k) bad hs
+    rw [corruption_stops fmt crc seq (es.take k) bad hs
       (fun x hx => hok x (List.mem_of_mem_take hx)) hd] at he
     exact List.mem_of_mem_take he
 
-/-- the timestamp is outside the checksum: changing one byte of it (here byte 1 of the stamp
-    of the only entry, 5 → 261) yields an entry that was never appended — for EVERY checksum
-    function, since the payload and its checksum are untouched -/
+/-- CURRENT format: bytes that announce length 0 are never an entry — in particular a
+    zero-filled tail of ANY length yields nothing (no checksum assumption) -/
+theorem no_phantom_zero_entry (crc : Bytes → Nat) (bs : Bytes) (h : leVal (bs.take 4) = 0) :
+    decode .v2 crc bs = none := by
+  unfold decode
+  split
+  · rfl
+  · simp only
+    rw [if_pos (by simp [h])]
+
+theorem leVal_replicate_zero (n : Nat) : leVal (List.replicate n 0) = 0 := by
+  induction n with
+  | zero => rfl
+  | succ n ih => simp [List.replicate_succ, leVal, ih]
+
+theorem zero_tail_stops_v2 (crc : Bytes → Nat) (seq : Nat) (es : List Entry) (m : Nat)
+    (hs : seq < 2 ^ 64) (hok : AllOk .v2 crc es) :
+    fileEntries .v2 crc (fileImage .v2 seq es ++ List.replicate m 0) = es := by
+  unfold fileImage
+  rw [List.append_assoc, fileEntries_image .v2 crc seq _ hs, entries_encs_append .v2 crc es _ hok,
+    entries_of_decode_none .v2 crc _ (no_phantom_zero_entry crc _ (by
+      rw [List.take_replicate]; exact leVal_replicate_zero _)), List.append_nil]
+
+/-- CURRENT format, the property's damage classes:
+    (1) every truncation;
+    (2) a cut at an entry boundary followed by a zero-filled tail of any length (unconditional);
+    (3) a same-length corruption confined to ONE entry — any of its bytes: length, stamp,
+        checksum or payload — when the checksum notices (`CrcDetects` on the bytes from that
+        entry on): recovery returns exactly the entries before it.
+    In each case everything that comes back was appended, bit-identical, in order. -/
+theorem only_appended_v2 (crc : Bytes → Nat) (seq : Nat) (es : List Entry)
+    (hs : seq < 2 ^ 64) (hok : AllOk .v2 crc es) :
+    (∀ n, ∀ x ∈ fileEntries .v2 crc ((fileImage .v2 seq es).take n), x ∈ es) ∧
+    (∀ k m, ∀ x ∈ fileEntries .v2 crc (fileImage .v2 seq (es.take k) ++ List.replicate m 0), x ∈ es) ∧
+    (∀ es₁ e es₂ bad, es = es₁ ++ e :: es₂ → bad.length = e.encode.length →
+      CrcDetects .v2 crc (bad ++ encs es₂) →
+      fileEntries .v2 crc (fileImage .v2 seq es₁ ++ (bad ++ encs es₂)) = es₁ ∧
+      ∀ x ∈ fileEntries .v2 crc (fileImage .v2 seq es₁ ++ (bad ++ encs es₂)), x ∈ es) := by
+  refine ⟨(only_appended_partial .v2 crc seq es hs hok).1, ?_, ?_⟩
+  · intro k m x hx
+    rw [zero_tail_stops_v2 crc seq (es.take k) m hs (fun y hy => hok y (List.mem_of_mem_take hy))] at hx
+    exact List.mem_of_mem_take hx
+  · intro es₁ e es₂ bad hes _ hd
+    have hok₁ : AllOk .v2 crc es₁ := fun y hy => hok y (by rw [hes]; exact List.mem_append_left _ hy)
+    have := corruption_stops .v2 crc seq es₁ (bad ++ encs es₂) hs hok₁ hd
+    refine ⟨this, fun x hx => ?_⟩
+    rw [this] at hx
+    rw [hes]; exact List.mem_append_left _ hx
+
+-- non-vacuity of (3) with CRC-32: the entry stamped 5 with its second stamp byte flipped
+-- (5 → 261) — the very input that the old format accepted
+example : CrcDetects .v2 Driver.crc32
+    ((Entry.mk' .v2 Driver.crc32 [7] 5).encode.set 5 1 ++ encs []) := by decide +kernel
+
+/-- CURRENT format: a zero-filled tail no longer makes `recover_entries_after` fail — the
+    call returns exactly what it returns for the undamaged store -/
+theorem recover_after_survives_zero_fill {δ : Type} (crc : Bytes → Nat) (de : Bytes → Option δ)
+    (a b : Image) (s : Nat) (es : List Entry) (m t : Nat) (hs : s < 2 ^ 64) (hok : AllOk .v2 crc es) :
+    recoverAfter .v2 crc de t (a ++ (s, fileImage .v2 s es ++ List.replicate m 0) :: b)
+      = recoverAfter .v2 crc de t (a ++ (s, fileImage .v2 s es) :: b) := by
+  unfold recoverAfter
+  rw [files_independent, files_independent, zero_tail_stops_v2 crc s es m hs hok,
+    entries_intact .v2 crc s es hs hok]
+
+/-! ## the old format `.v1` (before the fix) -/
+
+/-- OLD format: the timestamp is outside the checksum: changing one byte of it (here byte 1 of
+    the stamp of the only entry, 5 → 261) yields an entry that was never appended — for EVERY
+    checksum function, since the payload and its checksum are untouched -/
 theorem timestamp_flip_counterexample (crc : Bytes → Nat) (hr : crc [7] < 2 ^ 32) :
-    ¬ C10_only_appended crc := by
+    ¬ C10_only_appended .v1 crc := by
   intro h
-  have hok : AllOk crc [Entry.mk' crc [7] 5] := by
+  have hg : ∀ t, t < 2 ^ 64 → (Entry.mk' .v1 crc [7] t).Good .v1 crc := by
+    intro t ht
+    exact ⟨⟨by simp [Entry.mk'], by simpa [Entry.mk'] using ht, hr⟩, rfl, fun hc => by cases hc⟩
+  have hok : AllOk .v1 crc [Entry.mk' .v1 crc [7] 5] := by
     intro e he
     simp only [List.mem_singleton] at he
     subst he
-    exact ⟨⟨by simp [Entry.mk'], by simp [Entry.mk'], hr⟩, rfl⟩
-  have hok' : AllOk crc [Entry.mk' crc [7] 261] := by
+    exact hg 5 (by decide)
+  have hok' : AllOk .v1 crc [Entry.mk' .v1 crc [7] 261] := by
     intro e he
     simp only [List.mem_singleton] at he
     subst he
-    exact ⟨⟨by simp [Entry.mk'], by simp [Entry.mk'], hr⟩, rfl⟩
-  have himg : (fileImage 1 [Entry.mk' crc [7] 5]).set 21 1 = fileImage 1 [Entry.mk' crc [7] 261] := by
-    simp [fileImage, header, magic, encs, Entry.encode, Entry.mk', le]
-  have := h 1 [Entry.mk' crc [7] 5] (by decide) hok _
-    (Or.inr (Or.inl ⟨21, 1, by simp [fileImage, header, magic, encs, Entry.encode, le_length, Entry.mk'], rfl⟩))
-    (Entry.mk' crc [7] 261)
-  rw [himg, entries_intact crc 1 _ (by decide) hok'] at this
+    exact hg 261 (by decide)
+  have himg : (fileImage .v1 1 [Entry.mk' .v1 crc [7] 5]).set 21 1
+      = fileImage .v1 1 [Entry.mk' .v1 crc [7] 261] := by
+    simp [fileImage, header, magic, encs, Entry.encode, Entry.mk', le, covered, Format.version]
+  have := h 1 [Entry.mk' .v1 crc [7] 5] (by decide) hok _
+    (Or.inr (Or.inl ⟨21, 1, by
+      simp [fileImage, header, magic, encs, Entry.encode, le_length, Entry.mk'], rfl⟩))
+    (Entry.mk' .v1 crc [7] 261)
+  rw [himg, entries_intact .v1 crc 1 _ (by decide) hok'] at this
   have := this (by simp)
   simp [Entry.mk'] at this
 
-theorem timestamp_flip_counterexample_crc32 : ¬ C10_only_appended Driver.crc32 :=
+theorem timestamp_flip_counterexample_crc32 : ¬ C10_only_appended .v1 Driver.crc32 :=
   timestamp_flip_counterexample Driver.crc32 (by decide)
 
-/-- sixteen zero bytes are a valid EMPTY entry as soon as `crc [] = 0` (true of CRC-32): a
-    zero-filled tail yields an entry no writer ever produced -/
+/-- OLD format: sixteen zero bytes are a valid EMPTY entry as soon as `crc [] = 0` (true of
+    CRC-32): a zero-filled tail yields an entry no writer ever produced -/
 theorem zero_entry_decodes (crc : Bytes → Nat) (h0 : crc [] = 0) :
-    decode crc (List.replicate 16 0) = some (⟨[], 0, 0⟩, 16) := by
-  simp [decode, overhead, leVal, h0]
+    decode .v1 crc (List.replicate 16 0) = some (⟨[], 0, 0⟩, 16) := by
+  simp [decode, overhead, leVal, covered, h0]
+
+theorem zero_fill_entries_v1 (crc : Bytes → Nat) (h0 : crc [] = 0) (s : Nat) (hs : s < 2 ^ 64) :
+    fileEntries .v1 crc (fileImage .v1 s [] ++ List.replicate 16 0) = [⟨[], 0, 0⟩] := by
+  unfold fileImage
+  rw [List.append_assoc, fileEntries_image .v1 crc s _ hs]
+  simp only [encs, List.flatMap_nil, List.nil_append]
+  rw [entries_step, zero_entry_decodes crc h0]
+  simp only
+  rw [List.drop_of_length_le (by simp), entries_of_decode_none .v1 crc [] (by simp [decode, overhead])]
 
 theorem zero_fill_counterexample (crc : Bytes → Nat) (h0 : crc [] = 0) :
-    ¬ C10_only_appended crc := by
+    ¬ C10_only_appended .v1 crc := by
   intro h
-  have := h 1 [] (by decide) (by intro e he; cases he) (fileImage 1 [] ++ List.replicate 16 0)
+  have := h 1 [] (by decide) (by intro e he; cases he) (fileImage .v1 1 [] ++ List.replicate 16 0)
     (Or.inr (Or.inr ⟨16, 16, by simp [fileImage, header, magic, encs, le]⟩)) ⟨[], 0, 0⟩
-  have hfe : fileEntries crc (fileImage 1 [] ++ List.replicate 16 0) = [⟨[], 0, 0⟩] := by
-    unfold fileImage
-    rw [List.append_assoc, fileEntries_image crc 1 _ (by decide)]
-    simp only [encs, List.flatMap_nil, List.nil_append]
-    rw [entries_step, zero_entry_decodes crc h0]
-    simp only
-    rw [List.drop_of_length_le (by simp), entries_of_decode_none crc [] (by simp [decode, overhead])]
-  rw [hfe] at this
+  rw [zero_fill_entries_v1 crc h0 1 (by decide)] at this
   simpa using this (by simp)
 
 theorem crc32_nil : Driver.crc32 [] = 0 := by decide
 
-theorem zero_fill_counterexample_crc32 : ¬ C10_only_appended Driver.crc32 :=
+theorem zero_fill_counterexample_crc32 : ¬ C10_only_appended .v1 Driver.crc32 :=
   zero_fill_counterexample Driver.crc32 crc32_nil
 
 theorem allSome_none_of_mem {α β : Type} (f : α → Option β) (l : List α) (a : α)
@@ -219,21 +328,14 @@ theorem allSome_none_of_mem {α β : Type} (f : α → Option β) (l : List α) 
       | none => rfl
       | some v => simp only; rw [ih h]
 
-/-- … and `recover_entries_after(0)` then fails as a whole when that payload does not
-    deserialise (`to_delta()?`), hiding every intact entry of every file -/
+/-- OLD format: … and `recover_entries_after(0)` then failed as a whole when that payload did
+    not deserialise (`to_delta()?`), hiding every intact entry of every file -/
 theorem zero_fill_fails_recover_after {δ : Type} (crc : Bytes → Nat) (de : Bytes → Option δ)
     (h0 : crc [] = 0) (hde : de [] = none) (a b : Image) (s : Nat) (hs : s < 2 ^ 64) :
-    recoverAfter crc de 0 (a ++ (s, fileImage s [] ++ List.replicate 16 0) :: b) = none := by
-  have hfe : fileEntries crc (fileImage s [] ++ List.replicate 16 0) = [⟨[], 0, 0⟩] := by
-    unfold fileImage
-    rw [List.append_assoc, fileEntries_image crc s _ hs]
-    simp only [encs, List.flatMap_nil, List.nil_append]
-    rw [entries_step, zero_entry_decodes crc h0]
-    simp only
-    rw [List.drop_of_length_le (by simp), entries_of_decode_none crc [] (by simp [decode, overhead])]
+    recoverAfter .v1 crc de 0 (a ++ (s, fileImage .v1 s [] ++ List.replicate 16 0) :: b) = none := by
   unfold recoverAfter
   apply allSome_none_of_mem _ _ ⟨[], 0, 0⟩ _ hde
-  rw [files_independent, hfe, List.mem_filter]
+  rw [files_independent, zero_fill_entries_v1 crc h0 s hs, List.mem_filter]
   exact ⟨by simp, by simp⟩
 
 /-! ## truncation -/
@@ -242,11 +344,11 @@ theorem zero_fill_fails_recover_after {δ : Type} (crc : Bytes → Nat) (de : By
     `T` and every active file: (1) the active file is never removed; (2) no file is added or
     altered; (3) the entries stamped later than `T` that recovery returns are exactly the same
     before and after (same entries, same order, same multiplicity) -/
-theorem truncate_safe (crc : Bytes → Nat) (T : Nat) (active : Option Nat) (img : Image) :
-    (∀ p ∈ img, active = some p.1 → p ∈ truncateBefore crc T active img) ∧
-    (truncateBefore crc T active img).Sublist img ∧
-    (recoverAll crc (truncateBefore crc T active img)).filter (fun e => decide (T < e.ts))
-      = (recoverAll crc img).filter (fun e => decide (T < e.ts)) := by
+theorem truncate_safe (fmt : Format) (crc : Bytes → Nat) (T : Nat) (active : Option Nat) (img : Image) :
+    (∀ p ∈ img, active = some p.1 → p ∈ truncateBefore fmt crc T active img) ∧
+    (truncateBefore fmt crc T active img).Sublist img ∧
+    (recoverAll fmt crc (truncateBefore fmt crc T active img)).filter (fun e => decide (T < e.ts))
+      = (recoverAll fmt crc img).filter (fun e => decide (T < e.ts)) := by
   refine ⟨?_, List.filter_sublist, ?_⟩
   · intro p hp ha
     unfold truncateBefore
@@ -260,18 +362,18 @@ theorem truncate_safe (crc : Bytes → Nat) (T : Nat) (active : Option Nat) (img
       split
       · rw [recoverAll_cons, recoverAll_cons, List.filter_append, List.filter_append, ih]
       · rename_i hdel
-        have hd : deletable crc T p.2 = true := by
+        have hd : deletable fmt crc T p.2 = true := by
           simp only [Bool.or_eq_true, Bool.not_eq_true', not_or, Bool.not_eq_false] at hdel
           exact hdel.2
-        rw [recoverAll_cons, List.filter_append, deletable_filter crc T p.2 hd, List.nil_append, ih]
+        rw [recoverAll_cons, List.filter_append, deletable_filter fmt crc T p.2 hd, List.nil_append, ih]
 
 /-- corollary in the words of the property: an entry stamped later than `T` that was
     recoverable before `truncate_before(T)` is recoverable after it -/
-theorem truncate_keeps_newer (crc : Bytes → Nat) (T : Nat) (active : Option Nat) (img : Image)
-    (e : Entry) (he : e ∈ recoverAll crc img) (ht : T < e.ts) :
-    e ∈ recoverAll crc (truncateBefore crc T active img) := by
-  have h := (truncate_safe crc T active img).2.2
-  have : e ∈ (recoverAll crc img).filter (fun e => decide (T < e.ts)) := by
+theorem truncate_keeps_newer (fmt : Format) (crc : Bytes → Nat) (T : Nat) (active : Option Nat)
+    (img : Image) (e : Entry) (he : e ∈ recoverAll fmt crc img) (ht : T < e.ts) :
+    e ∈ recoverAll fmt crc (truncateBefore fmt crc T active img) := by
+  have h := (truncate_safe fmt crc T active img).2.2
+  have : e ∈ (recoverAll fmt crc img).filter (fun e => decide (T < e.ts)) := by
     rw [List.mem_filter]; exact ⟨he, by simpa using ht⟩
   rw [← h] at this
   exact (List.mem_filter.mp this).1
@@ -279,10 +381,10 @@ theorem truncate_keeps_newer (crc : Bytes → Nat) (T : Nat) (active : Option Na
 -- non-vacuity: a non-monotone layout (stamp 9 in an older file than stamp 3); file 1 survives
 -- T = 5 because it holds stamp 9, file 2 (stamps ≤ 5) is deleted, file 3 is active
 example :
-    (truncateBefore Driver.crc32 5 (some 3)
-      [(1, fileImage 1 [Entry.mk' Driver.crc32 [1] 9, Entry.mk' Driver.crc32 [2] 2]),
-       (2, fileImage 2 [Entry.mk' Driver.crc32 [3] 3]),
-       (3, fileImage 3 [Entry.mk' Driver.crc32 [4] 1])]).map (·.1) = [1, 3] := by decide
+    (truncateBefore .v2 Driver.crc32 5 (some 3)
+      [(1, fileImage .v2 1 [Entry.mk' .v2 Driver.crc32 [1] 9, Entry.mk' .v2 Driver.crc32 [2] 2]),
+       (2, fileImage .v2 2 [Entry.mk' .v2 Driver.crc32 [3] 3]),
+       (3, fileImage .v2 3 [Entry.mk' .v2 Driver.crc32 [4] 1])]).map (·.1) = [1, 3] := by decide +kernel
 
 end C10
 end RedisVerif
